@@ -98,7 +98,12 @@ func c20Alphabet(m *sx.Model, stack string) []sx.Op {
 		for _, v := range b.Keys[k] {
 			if v.VID != "null" {
 				ops = append(ops, sx.Op{Kind: "Delete", B: "bka", K: k, V: v.VID})
+				// the bulk variant of a version-addressed delete
+				ops = append(ops, sx.Op{Kind: "DeleteObjects", B: "bka", Parts: []string{k + "?v=" + v.VID}})
 			}
+		}
+		if len(b.Keys[k]) > 0 {
+			ops = append(ops, sx.Op{Kind: "DeleteObjects", B: "bka", Parts: []string{k}})
 		}
 	}
 	sortOps(ops)
@@ -399,6 +404,8 @@ func TestC20(t *testing.T) {
 	s := &sx.Search{Run: run, TestRun: "^TestWorker$", Spec: sx.SpecByName("C20"), Depth: 3, Stacks: []string{world.StackSQL}, Seeds: [][]sx.Op{
 		{{Kind: "CreateBucket", B: "bka"}},
 		{{Kind: "CreateBucket", B: "bka"}, {Kind: "Put", B: "bka", K: "k1", Body: "a", Opt: map[string]string{"ct": "text/a", "tags": "t=1"}}, {Kind: "Get", B: "bka", K: "k1"}},
+		// two versions of a key, the current one cached
+		{{Kind: "CreateBucket", B: "bka"}, {Kind: "PutVersioning", B: "bka", Opt: map[string]string{"status": "Enabled"}}, {Kind: "Put", B: "bka", K: "k1", Body: "a"}, {Kind: "Put", B: "bka", K: "k1", Body: "P5"}, {Kind: "Get", B: "bka", K: "k1"}},
 	}}
 	if !quick() {
 		s.Depth = 4
